@@ -91,6 +91,23 @@ fn run_case(c: &Case, scratch: &str, idx: usize) -> Value {
   }
   let argv: Vec<&str> = args.iter().map(|s| s.as_str()).collect();
   let o = run_sgv(&argv, &p.root, None, 30, &[]);
+  // the plain report says which lines it prints; the matches themselves come from a twin run of the same search
+  let mut twin: Vec<Value> = vec![];
+  if c.style == "plain" && !c.scan {
+    let mut a2: Vec<String> = vec!["run".into(), "-p".into(), c.pattern.clone(), "-l".into(), c.lang.into()];
+    if let Some(r) = &c.rewrite {
+      a2.extend(["-r".into(), r.clone()]);
+    }
+    a2.push("--json=stream".into());
+    let av: Vec<&str> = a2.iter().map(|s| s.as_str()).collect();
+    let t = run_sgv(&av, &p.root, None, 30, &[]);
+    for line in t.stdout.lines() {
+      if let Ok(v) = serde_json::from_str::<Value>(line) {
+        twin.push(json!({"file": v["file"].as_str().unwrap_or("").trim_start_matches("./"), "s": v["range"]["byteOffset"]["start"], "e": v["range"]["byteOffset"]["end"],
+          "sl": v["range"]["start"]["line"], "el": v["range"]["end"]["line"]}));
+      }
+    }
+  }
   p.remove();
   let files: Vec<Value> = c.files.iter().map(|(path, content)| {
     // st[k] = byte offset at which character k starts (k = len+1: end of text); TLC re-checks it in O(n)
@@ -103,7 +120,7 @@ fn run_case(c: &Case, scratch: &str, idx: usize) -> Value {
   }).collect();
   let (before, after) = if c.ctx.2 { (c.ctx.0, c.ctx.0) } else { (c.ctx.0, c.ctx.1) };
   let mut rec = json!({"id": c.id, "args": args, "style": c.style, "scan": c.scan, "before": before, "after": after,
-    "files": files, "exit": o.code, "parsed": false, "items": [], "entries": [], "separators": 0});
+    "files": files, "exit": o.code, "parsed": false, "items": [], "entries": [], "separators": 0, "twin": twin, "rewrite": c.rewrite.is_some()});
   if c.style == "plain" {
     // entries `path:line:text`; group separators `--`
     let mut entries = vec![];
